@@ -32,6 +32,8 @@ TYPES = {
     'string3': (dict(type='string', constraints=dict(maxLength=3)), 'ab', 'cd', 'toolong'),
     'array': (dict(type='array'), [1, 2], '[3, 4]', 'notjson'),
     'intmin': (dict(type='integer', constraints=dict(minimum=0)), 3, '4', -1),
+    # required: the invalid value of this setting is NULL itself (cases with a valid-null cell in such a column are not instantiated)
+    'intreq': (dict(type='integer', constraints=dict(required=True)), 5, '7', None),
 }
 CHANNELS = ['set_type', 'set_type_transform', 'validate', 'results', 'dumper']
 
@@ -192,7 +194,12 @@ def run():
                 ch = r.choice(CHANNELS[:4])     # a dumper cannot serialise the invalid values that ignore / keep-handlers let through
             # the dumpers re-declare the format of datetime fields (their own dialect), so its default lexical form is not valid there
             tn2 = [x for x in tnames if x != 'datetime'] if ch == 'dumper' else tnames
-            items.append(dict(case=c, channel=ch, t1=r.choice(tn2), t2=r.choice(tn2), pattern=r.choice(['f[12]', 'f1|f2', 'f2|f1', 'f(1|2)'])))
+            nul1 = any(row[0] == 'nul' for row in c['tbl'])
+            nul2 = any(row[1] == 'nul' for row in c['tbl'])
+            same = ch in ('set_type', 'set_type_transform')            # both checked fields get the first type there
+            t1 = r.choice([x for x in tn2 if x != 'intreq' or not (nul1 or (same and nul2))])
+            t2 = r.choice([x for x in tn2 if x != 'intreq' or not nul2])
+            items.append(dict(case=c, channel=ch, t1=t1, t2=t2, pattern=r.choice(['f[12]', 'f1|f2', 'f2|f1', 'f(1|2)'])))
     res = pmap(replay_case, items, chunksize=32)
     errs = harness_errors(res)
     if errs:
